@@ -37,8 +37,64 @@ CLAIMS = {
             "coverage order and that read(write) restores it (moc_cover, moc_disjoint, moc_order_ge_cov, moc_maximal, "
             "moc_read_write), with witnesses for the two repaired defects; correspondence of UNIQ columns and "
             "read-back maps", NOTE + "float64 log2 flooring and the FITS table layer are trusted.", TECH, "6 C17"),
+    'C03': ("Lean proof of the serialisation logic: full read = identity, coverage read = coverage mask, partial read = "
+            "restriction to the requested covered coverage pixels with exact rejection conditions (read_partial_spec, "
+            "read_partial_rejects_iff), read-back map interchangeable (C10.Same); correspondence incl. raw astropy "
+            "inspection of the written extensions, metadata, second-generation files and continuation histories",
+            NOTE + "astropy FITS encoding / compression / header formatting trusted; Parquet not exercised (pyarrow "
+            "absent, the property conditions on it).", TECH, "6 C03"),
+    'C05': ("Lean proof that every _PackedBoolArray method refines the numpy boolean-array operation on the bit list "
+            "(43+ theorems over a byte-heap model with views: slicing, assignment, in-place logic, sum, copy, resize, "
+            "popcount LUT), with documented residual deviations as _partial theorems + witnesses; correspondence: "
+            "exhaustive small-size sweeps against numpy twins and packed/unpacked twin map histories",
+            NOTE, TECH, "6 C05"),
+    'C06': ("Lean proof that _apply_operation computes the seeded fold over exactly the valid inputs under the union / "
+            "intersection rule for every list of well-formed maps (multiOp_spec, union_fold, intersection_fold) plus "
+            "obligations re-proved on every run over the operation table regenerated from /repo (opsTable_ok: every "
+            "filler neutral and dtype-preserving)", NOTE + "translator: harness/translate_ops.py records the wrapper "
+            "arguments by execution.", "Lean 4 theorems + generated table obligations + correspondence", "6 C06"),
+    'C07': ("Lean proof that degrade reduces exactly the children of each coarse pixel, masks by validity, keeps "
+            "uncovered pixels invalid, handles weights in any block order and the below-coverage path "
+            "(degrade_spec, degrade_masked, degradeW_spec, gatherWeights_spec, rehouse_spec); reductions are "
+            "parameters; correspondence with exact rational results", NOTE + "numpy nan-reductions trusted; "
+            "known finding F36 (unmasked integer 'and').", TECH, "6 C07"),
+    'C09': ("Lean proof over a heap model with the code's sharing pattern (shared immutable coverage objects, one "
+            "buffer per map, copy-on-append) that no step changes what another handle denotes (mutate_frame, "
+            "produce_frame, no_tie for every continuation); the sharing pattern itself is checked by two-phase "
+            "correspondence histories over every producing operation", NOTE, TECH, "6 C09"),
+    'C10': ("Lean proof that every modelled operation maps content-equal representations (Same) to content-equal "
+            "results and equal query answers, for every continuation (12 theorems incl. history_interchangeable); "
+            "correspondence over twin construction routes with a shared continuation", NOTE + "runtime representation "
+            "differences (ownership, byte order) are visible only to the correspondence.", TECH, "6 C10"),
+    'C14': ("Lean proof over abstract record cells with a field lens: primary-based validity, whole-record read-back, "
+            "field copy = values at the parent's valid pixels, field view reads, writes through a view change exactly "
+            "that field of the addressed pixels, the view guard rejects new pixels (7 theorems); correspondence with "
+            "freshly taken views", NOTE + "views kept across parent growth dangle (memory safety, outside the model).",
+            TECH, "6 C14"),
+    'C15': ("Lean proof that upgrade replicates values to children with the same coverage, degrade(upgrade) restores "
+            "the map for reductions that are the identity on constant groups, and fracdet = valid-children count at "
+            "every permitted resolution incl. the coverage map (upgrade_spec, degrade_upgrade_id, fracdet_eq, "
+            "fracdet_cov_eq_coverage_map)", NOTE, TECH, "6 C15"),
+    'C16': ("Lean proof of the structural part: dense array -> map -> dense array round trip, RING export/import "
+            "through any pair of mutually inverse permutations, the interpolation validity rule (6 theorems); "
+            "correspondence with hpgeom's own tables for nest=False, positions, HEALPix explicit/implicit files and "
+            "interpolation (exact rational weighted mean)", NOTE + "PARTIAL: hpgeom geometry (ring/nest, angle_to_pixel, "
+            "interpolation neighbours/weights) and IEEE weighted means are trusted; known finding F55.", TECH, "6 C16"),
+    'C18': ("Lean proof that the in-memory concatenation of files with pairwise disjoint valid sets is their union "
+            "pixel for pixel for matched / finer / coarser input coverage, and that overlap checking raises iff two "
+            "inputs share a valid pixel (contribution_spec, cat_union, cat_overlap_raises_iff)",
+            NOTE + "in_memory=False (fitsio) cannot run here and is not claimed; known finding F50.", TECH, "6 C18"),
+    'C19': ("Lean proof that degrade-on-read of a written file equals reading (fully or by any pixel request) and "
+            "degrading in memory: same rejections, same values, same coverage, weighted form included (dor_eq, "
+            "dor_full, dorW_spec); four-route correspondence", NOTE + "known findings F36, F47.", TECH, "6 C19"),
+    'C20': ("Lean proof of the fast generator's child arithmetic, of the rejection loop (exactly n points, all valid, "
+            "first n valid candidates of the stream, divergence iff no valid candidate) and of the wrapped sampling "
+            "window (covers every per-pixel interval modulo one turn; witness for the clipped pre-fix window); "
+            "correspondence through a recording RandomState proxy + direct checks of count / containment / "
+            "determinism / fixed starvation rule with a hang watchdog",
+            NOTE + "PARTIAL: pixel geometry and statistical uniformity are outside Lean.", TECH, "6 C20"),
 }
-NOT_YET = "check not built yet in this round (work in progress; see DESIGN.md section 12)"
+NOT_YET = "not claimed"
 
 checks, na = [], []
 for p in PROPS:
